@@ -115,43 +115,43 @@ Parse(doc) ==
                value |-> value.v, data |-> data.v, al |-> al.v]]
 
 \* ---- layouts ----------------------------------------------------------------
-U(bn) == B(BnNorm(bn))
-ToItem(tx) == IF tx.to = <<>> THEN B(<<>>) ELSE B(tx.to[1])
+RlpU(bn) == RlpB(BnNorm(bn))
+ToItem(tx) == IF tx.to = <<>> THEN RlpB(<<>>) ELSE RlpB(tx.to[1])
 AccessListItem(al) ==
-  L([i \in 1..Len(al) |->
-       L(<<B(al[i].addr), L([j \in 1..Len(al[i].slots) |-> B(al[i].slots[j])])>>)])
+  RlpL([i \in 1..Len(al) |->
+       RlpL(<<RlpB(al[i].addr), RlpL([j \in 1..Len(al[i].slots) |-> RlpB(al[i].slots[j])])>>)])
 
 BodyItems(tx) ==
   IF tx.kind = "legacy" THEN
-    <<U(tx.nonce), U(tx.gasPrice), U(tx.gas), ToItem(tx), U(tx.value), B(tx.data)>>
+    <<RlpU(tx.nonce), RlpU(tx.gasPrice), RlpU(tx.gas), ToItem(tx), RlpU(tx.value), RlpB(tx.data)>>
   ELSE IF tx.kind = "2930" THEN
-    <<U(tx.chainId[1]), U(tx.nonce), U(tx.gasPrice), U(tx.gas), ToItem(tx), U(tx.value),
-      B(tx.data), AccessListItem(tx.al)>>
+    <<RlpU(tx.chainId[1]), RlpU(tx.nonce), RlpU(tx.gasPrice), RlpU(tx.gas), ToItem(tx), RlpU(tx.value),
+      RlpB(tx.data), AccessListItem(tx.al)>>
   ELSE
-    <<U(tx.chainId[1]), U(tx.nonce), U(tx.maxPrio), U(tx.maxFee), U(tx.gas), ToItem(tx),
-      U(tx.value), B(tx.data), AccessListItem(tx.al)>>
+    <<RlpU(tx.chainId[1]), RlpU(tx.nonce), RlpU(tx.maxPrio), RlpU(tx.maxFee), RlpU(tx.gas), ToItem(tx),
+      RlpU(tx.value), RlpB(tx.data), AccessListItem(tx.al)>>
 
 TypeByte(tx) == IF tx.kind = "legacy" THEN <<>> ELSE IF tx.kind = "2930" THEN <<1>> ELSE <<2>>
 
 \* EIP-155 v as an unbounded natural: 27 + par, or 35 + 2c + par
-V(par, chainOpt) ==
+VOf(par, chainOpt) ==
   IF chainOpt = <<>> THEN <<27 + par>>
   ELSE BnAdd(BnAdd(chainOpt[1], chainOpt[1]), <<35 + par>>)
-VFits256(chainOpt) == BnBitLen(V(1, chainOpt)) <= 256
+VFits256(chainOpt) == BnBitLen(VOf(1, chainOpt)) <= 256
 
 UnsignedItems(tx) ==
   IF tx.kind = "legacy" /\ tx.chainId # <<>>
-  THEN BodyItems(tx) \o <<U(tx.chainId[1]), B(<<>>), B(<<>>)>>
+  THEN BodyItems(tx) \o <<RlpU(tx.chainId[1]), RlpB(<<>>), RlpB(<<>>)>>
   ELSE BodyItems(tx)
 
 SignedItems(tx, sig) ==
   IF tx.kind = "legacy"
-  THEN BodyItems(tx) \o <<U(V(sig.par, tx.chainId)), U(sig.r), U(sig.s)>>
-  ELSE BodyItems(tx) \o <<U(<<sig.par>>), U(sig.r), U(sig.s)>>
+  THEN BodyItems(tx) \o <<RlpU(VOf(sig.par, tx.chainId)), RlpU(sig.r), RlpU(sig.s)>>
+  ELSE BodyItems(tx) \o <<RlpU(<<sig.par>>), RlpU(sig.r), RlpU(sig.s)>>
 
-SigningPayload(tx)     == TypeByte(tx) \o Enc(L(UnsignedItems(tx)))
+SigningPayload(tx)     == TypeByte(tx) \o Enc(RlpL(UnsignedItems(tx)))
 SigningDigest(tx)      == Keccak256(SigningPayload(tx))
-SignedPayload(tx, sig) == TypeByte(tx) \o Enc(L(SignedItems(tx, sig)))
+SignedPayload(tx, sig) == TypeByte(tx) \o Enc(RlpL(SignedItems(tx, sig)))
 
 \* What an independent strict decoder must find in emitted bytes `bs`.
 DecodesTo(bs, tx, sig) ==
@@ -161,5 +161,5 @@ DecodesTo(bs, tx, sig) ==
   IN  /\ (tb # <<>> => Len(bs) > 0 /\ bs[1] = tb[1])
       /\ (tb = <<>>  => Len(bs) > 0 /\ bs[1] >= 192)
       /\ d.ok
-      /\ d.item = L(SignedItems(tx, sig))
+      /\ d.item = RlpL(SignedItems(tx, sig))
 =============================================================================
